@@ -316,3 +316,14 @@ func init() {
 }
 
 var _ = json.Marshal
+
+// c11Translate: in a single replayed run, violations of the safety monitors are C11's.
+func c11Translate(res *RunResult) {
+	for i := range res.Violations {
+		v := &res.Violations[i]
+		if c11Safety[v.Prop] {
+			key := v.Prop + "/" + v.Monitor + "/" + v.Sig
+			*v = Violation{Prop: "C11", Monitor: "safety", Sig: key, Msg: v.Msg, Step: v.Step}
+		}
+	}
+}
